@@ -94,10 +94,10 @@ func (c *Ctx) rootOnceWith(rule string, funcs []*FuncInfo, isSetRoot func(*types
 			var guardParam *types.Var
 			idx := -1
 			for _, cd := range flat {
-				if cd.Expr == nil || cd.Neg {
+				if cd.Expr == nil {
 					continue
 				}
-				if be, ok := unparen(cd.Expr).(*ast.BinaryExpr); ok && be.Op == token.EQL {
+				if be, ok := unparen(cd.Expr).(*ast.BinaryExpr); ok && ((be.Op == token.EQL && !cd.Neg) || (be.Op == token.NEQ && cd.Neg)) {
 					for _, side := range [][2]ast.Expr{{be.X, be.Y}, {be.Y, be.X}} {
 						if isNilIdent(info, side[1]) {
 							if o, ok := identObj(info, side[0]).(*types.Var); ok {
